@@ -53,7 +53,7 @@ theorem returns_sound (m : Method) (h : validateReturns [] m = []) :
 /-- the four passes of the link validator -/
 theorem linkValidate_nil_parts (ctrlRoute : String) (m : Method) (h : linkValidate ctrlRoute m = []) :
     let route := ((m.annots.filter (·.name = "Route")).head?.map (·.value)).getD ""
-    let urlParams := extractUrlParams ctrlRoute ++ extractUrlParams route
+    let urlParams := extractUrlParams (ctrlRoute ++ route)
     let pathAttrs := m.annots.filter (·.name = "Path")
     let funcParams := (m.params.filter fun p => !isContextType p.type).map (·.name)
     -- every {name} of the FULL route (controller prefix + method route) is referenced by a @Path (by alias or by name)
@@ -102,7 +102,7 @@ theorem linkValidate_nil_parts (ctrlRoute : String) (m : Method) (h : linkValida
     `unaliased_outside_route_is_accepted` shows the validator does not establish it.) -/
 theorem link_injective (ctrlRoute : String) (m : Method) (h : linkValidate ctrlRoute m = []) :
     let route := ((m.annots.filter (·.name = "Route")).head?.map (·.value)).getD ""
-    let urlParams := extractUrlParams ctrlRoute ++ extractUrlParams route
+    let urlParams := extractUrlParams (ctrlRoute ++ route)
     let pathAttrs := m.annots.filter (·.name = "Path")
     urlParams.Nodup ∧ (pathAttrs.map urlName).Nodup ∧
     (∀ p ∈ urlParams, p ≠ "" → p ∈ pathAttrs.map urlName) ∧
@@ -156,9 +156,9 @@ theorem link_injective (ctrlRoute : String) (m : Method) (h : linkValidate ctrlR
 /-- the property's one-to-one correspondence, under the hypothesis the validator does not check (C10-F2) -/
 theorem link_bijection_partial (ctrlRoute : String) (m : Method) (h : linkValidate ctrlRoute m = [])
     (hF2 : ∀ a ∈ m.annots.filter (·.name = "Path"), (∀ al, aliasOf a = .ok al → al = "") →
-        a.value ∈ extractUrlParams ctrlRoute ++ extractUrlParams (((m.annots.filter (·.name = "Route")).head?.map (·.value)).getD "")) :
+        a.value ∈ extractUrlParams (ctrlRoute ++ ((m.annots.filter (·.name = "Route")).head?.map (·.value)).getD "")) :
     let route := ((m.annots.filter (·.name = "Route")).head?.map (·.value)).getD ""
-    let urlParams := extractUrlParams ctrlRoute ++ extractUrlParams route
+    let urlParams := extractUrlParams (ctrlRoute ++ route)
     let pathNames := (m.annots.filter (·.name = "Path")).map urlName
     urlParams.Nodup ∧ pathNames.Nodup ∧ (∀ p ∈ urlParams, p ≠ "" → p ∈ pathNames) ∧ (∀ n ∈ pathNames, n ∈ urlParams) := by
   intro route urlParams pathNames
@@ -187,7 +187,7 @@ theorem link_bijection_partial (ctrlRoute : String) (m : Method) (h : linkValida
 theorem unaliased_outside_route_is_accepted :
     let m : Method := { name := "Get", annots := [⟨"Method", "GET", [], ""⟩, ⟨"Route", "/b", [], ""⟩, ⟨"Path", "id", [], ""⟩],
                         params := [⟨"id", "string"⟩], results := ["error"] }
-    linkValidate "/t" m = [] ∧ ¬ (urlName ⟨"Path", "id", [], ""⟩ ∈ extractUrlParams "/t" ++ extractUrlParams "/b") := by
+    linkValidate "/t" m = [] ∧ ¬ (urlName ⟨"Path", "id", [], ""⟩ ∈ extractUrlParams ("/t" ++ "/b")) := by
   decide
 
 /-- non-vacuity: a route with a prefix parameter, an aliased and an un-aliased @Path meets the hypotheses -/
@@ -219,7 +219,7 @@ theorem params_referenced (ctrlRoute : String) (m : Method) (hnd : (m.params.map
   have hp' := List.filter_eq_nil_iff.1 hf p hp
   simp only [hctx, Bool.not_false, Bool.and_true, Bool.not_eq_true', Bool.not_eq_false] at hp'
   -- p.name ∈ seen2 ++ values of the other binding annotations that name a parameter
-  have hmem : p.name ∈ (linkValidate.goPath (extractUrlParams ctrlRoute ++ extractUrlParams (((m.annots.filter (·.name = "Route")).head?.map (·.value)).getD ""))
+  have hmem : p.name ∈ (linkValidate.goPath (extractUrlParams (ctrlRoute ++ ((m.annots.filter (·.name = "Route")).head?.map (·.value)).getD ""))
       ((m.params.filter fun p => !isContextType p.type).map (·.name)) (m.annots.filter (·.name = "Path")) [] [] []).2 ++
       ((m.annots.filter fun a => isBindingAnnot a.name && !(a.value.toList.all (· = ' '))).filter
         fun a => ((m.params.filter fun p => !isContextType p.type).map (·.name)).contains a.value).map (·.value) := by
@@ -227,7 +227,7 @@ theorem params_referenced (ctrlRoute : String) (m : Method) (hnd : (m.params.map
   rcases List.mem_append.1 hmem with h1 | h1
   · -- values accumulated by the @Path pass are values of @Path annotations
     have key : ∀ (as : List Annot) (sp sv sa : List String) (x : String),
-        x ∈ (linkValidate.goPath (extractUrlParams ctrlRoute ++ extractUrlParams (((m.annots.filter (·.name = "Route")).head?.map (·.value)).getD ""))
+        x ∈ (linkValidate.goPath (extractUrlParams (ctrlRoute ++ ((m.annots.filter (·.name = "Route")).head?.map (·.value)).getD ""))
               ((m.params.filter fun p => !isContextType p.type).map (·.name)) as sp sv sa).2 → x ∈ sp ∨ ∃ a ∈ as, a.value = x := by
       intro as
       induction as with
